@@ -8,7 +8,7 @@ set_option autoImplicit false
 open Proto GroupKey
 
 /-
-Driver of C09.  cfg: mode win|sql, arity, n.  ops: `row <id> v…`, `reap`, `flush`.
+Driver of C09.  cfg: mode win|sql, arity, n.  ops: `row <id> v…`, `reap`, `flush`, `stats`, `trig` (management calls, no effect).
 win: `flush` → `e <id…>` per batch delivered since the previous flush, in delivery order.
 sql: `flush` → `d <delivery#> g v… c <count> ids <id…> f <first> l <last>` per result row.
 -/
@@ -100,6 +100,8 @@ def run (c : Case) : CaseOut := Id.run do
       st := Counting.reap st (st.map Prod.fst)
       reaped := true
       obs := obs ++ [[]]
+    | ["stats"] => obs := obs ++ [[]]   -- GetStats / ResetStats: no effect on the window's rows
+    | ["trig"] => obs := obs ++ [[]]    -- Trigger is a no-op on a counting window
     | ["flush"] =>
       if implObs.contains ["barrier-timeout"] then spec := "fail:row-accounting-never-balanced(rows-lost-or-duplicated)"
       if implObs.contains ["sentinel-lost"] then spec := "fail:result-after-all-rows-never-delivered"
